@@ -63,7 +63,7 @@ class C06(Check):
             for driver in DRIVERS:
                 for size in (2, 3, 4, 5, 8):
                     variants = ["dataframe/centres", "hdf5/index", "random/centres", "dataframe/index", "dataframe/generate",
-                                "fits/centres", "parquet/index", "dataframe/empty_centre"] if driver == "create" else ["-"]
+                                "fits/centres", "parquet/index", "dataframe/empty_centre", "random/generate", "dataframe/centres_overwrite"] if driver == "create" else ["-"]
                     for var in variants:
                         if q and driver == "create" and size in (5,) and var != "dataframe/centres":
                             continue
@@ -288,6 +288,8 @@ class C06(Check):
                 if driver == "create":
                     written = sorted(x for ev in world.user_events if ev[0] == "written" for x in ev[3])
                     want_ids = sorted((np.arange(params["n"]) + 0.5).tolist())
+                    if params["mode"] == "centres_overwrite":  # the catalog created first (half of the rows) was written too
+                        want_ids = sorted(want_ids + (np.arange(max(3, params["n"] // 2)) + 0.5).tolist())
                     if params["source"] != "random" and written != want_ids:
                         bad(f"records-lost-before-writer:{tag}", dict(ctx, delivered=len(written), read=len(want_ids)))
                 # ---- results ------------------------------------------------------------------------------------
